@@ -780,6 +780,16 @@ def run(run):
         run.broken('LOOPLIMIT', 'highpassed() only beyond the high-water slot (adjustSlot interpreted)', str(ex), '')
     advidx(run, fx)
     derived(run, fx)
+    inst_ = 'newSlot: the free list is exactly the rest of the new block (interpreted)'
+    ns_ = fx.one('graphite2::Segment::newSlot')
+    try:
+        cases, bad = newslot_exec(run, fx)
+        if bad:
+            run.violated('GROWTH', inst_, ns_.where(), bad)
+        else:
+            run.held('GROWTH', inst_, ns_.where(), '%d abstract executions' % cases)
+    except O_.AnalysisBroken as ex:
+        run.broken('GROWTH', inst_, str(ex), ns_.where())
     from . import c03, c16, c10
     try:
         c10.boxcount(run, fx)
@@ -791,3 +801,65 @@ def run(run):
     from . import c13
     c13.cmapbound(run, fx)
     run.assume('allocation failure is outside the quantifier (inputs, programs): null returns of the allocators are exempt exits')
+
+
+def newslot_exec(run, fx, maxb=4):
+    """GROWTH by bounded execution: Segment::newSlot with an empty free list is interpreted for every block size 1..maxb (one-character
+    texts get blocks of ONE slot) and 0..2 user attributes per slot; the allocators are natives handing out exactly the requested number
+    of cells.  The slot handed out is the first of the block with a null next; the free list is the REST of the block, every member
+    inside the block, ending in null (a block of one slot leaves the list empty); each slot owns its own stretch of the attribute
+    block.  With a non-empty free list the head is handed out, unlinked, and the list advances."""
+    from . import ordint as O
+    fn = fx.one('graphite2::Segment::newSlot')
+    PS, PG, PF = 'graphite2::Slot::', 'graphite2::Segment::', 'graphite2::Silf::'
+    cases = 0
+    for bsz in range(1, maxb + 1):
+        for nuser in range(0, 3):
+            blocks = []
+
+            def alloc(I, f, e, obj, a, blocks=blocks):
+                n = I.rv(a[0])
+                if not isinstance(n, int) or n < 0 or n > 64:
+                    raise O.Violation('an allocation of %r cells is requested' % (n,), f.loc(e))
+                t = e.get('t') or ''
+                v = O.Vec([O.Rec({'#': len(blocks) * 100 + i}) for i in range(n)]) if 'Slot' in t else O.Vec([0] * n)
+                blocks.append((t, v))
+                return O.It(v, 0)
+            silf = O.Rec({PF + 'm_aUser': nuser})
+            seg = O.Rec({PG + 'm_freeSlots': O.Ptr(None), PG + 'm_numGlyphs': 1, PG + 'm_numCharinfo': 1, PG + 'm_silf': O.Ptr(silf), PG + 'm_bufSize': bsz,
+                         PG + 'm_slots': O.Vec(), PG + 'm_userAttrs': O.Vec(), PG + 'm_face': O.Ptr(O.Rec())})
+            nat = {'graphite2::Silf::numUser': lambda I, f, e, obj, a: nuser, 'free': lambda I, f, e, obj, a: None}
+            for k_ in [k for k in fx.raw['fn_by_q'] if k.startswith('graphite2::grzeroalloc')]:
+                nat[k_] = alloc
+            it = O.Interp(fx, natives=nat)
+            it.MAX_STEPS = 6000
+            desc = 'newSlot on an empty free list, block size %d, %d user attribute(s)' % (bsz, nuser)
+            cases += 1
+            try:
+                r = it.call(fn, seg, [])
+            except O.Violation as v:
+                return cases, '%s: %s (%s)' % (desc, v.what, v.loc)
+            sv = [v for t, v in blocks if 'Slot' in t]
+            if len(sv) != 1 or not isinstance(r, O.It) or r.vec is not sv[0] or r.idx != 0:
+                return cases, '%s: the slot handed out is not the first slot of the one new block' % desc
+            vec = sv[0]
+            nx = vec.items[0].get(PS + 'm_next')
+            if not (isinstance(nx, O.Ptr) and nx.rec is None):
+                return cases, '%s: the slot handed out still has a next link into the block' % desc
+            seen, cur = [], seg[PG + 'm_freeSlots']
+            while not (isinstance(cur, O.Ptr) and cur.rec is None):
+                if not isinstance(cur, O.It) or cur.vec is not vec or not (0 <= cur.idx < len(vec.items)):
+                    return cases, '%s: the free list reaches %s, which is not a slot of the block of %d slot(s) just allocated (the next newSlot hands out memory behind the block)' % (
+                        desc, ('slot index %d' % cur.idx) if isinstance(cur, O.It) else type(cur).__name__, bsz)
+                if cur.idx in seen or len(seen) > bsz:
+                    return cases, '%s: the free list is cyclic' % desc
+                seen.append(cur.idx)
+                cur = vec.items[cur.idx].get(PS + 'm_next')
+            if seen != list(range(1, bsz)):
+                return cases, '%s: the free list holds the slots %s of the block, expected %s' % (desc, seen, list(range(1, bsz)))
+            if nuser:
+                av = [v for t, v in blocks if 'Slot' not in t]
+                ua = [s_.get(PS + 'm_userAttr') for s_ in vec.items]
+                if len(av) != 1 or any(not (isinstance(u, O.It) and u.vec is av[0] and u.idx == i * nuser) for i, u in enumerate(ua)):
+                    return cases, '%s: the slots do not each own their stretch of the attribute block' % desc
+    return cases, None
